@@ -5,7 +5,7 @@ import re
 from mc.core import UnitResult
 
 ID = "C11"
-PARTS = ['comment', 'disable', 'disable-other', 'route-cli', 'route-override', 'route-override-longer', 'route-override-parent', 'route-override-prefix', 'route-top-level', 'hdisable', 'hcomment']      # outcome classes every run must produce (guards against a part of the exploration silently not running)
+PARTS = ['comment', 'disable', 'disable-other', 'route-cli', 'route-override', 'route-override-longer', 'route-override-parent', 'route-override-prefix', 'route-override-child', 'route-top-level', 'hdisable', 'hcomment']      # outcome classes every run must produce (guards against a part of the exploration silently not running)
 RULE = ("state = base program (every selection of <= 2/3 diagnostic lines from a pool incl. two codes on one line, a multi-line statement, first-line and last-line errors, the marker "
         "text inside a string literal) + one event: disable any subset of the occurring codes, or insert one/two ignore comments at any line in trailing or own-line form, bare / "
         "matching code / other code, with unused_ignore and bare_ignore on or off; real: the failures of NameCheckVisitor.check(); oracle: projection model — disabling removes "
@@ -29,6 +29,7 @@ POOL = [
     (["z = 1"], "mod"),
     (["print(a + s)"], "fnp"),                                    # operator on typed (not literal) operands: checked through captured sub-errors
     (["a += s"], "fnp"),                                           # no diagnostic: a line that ignores can be attached to in vain
+    (["def mr%d(p: int) -> int:", "    pass"], "mod"),             # missing_return on the def line: its name is a prefix of another code's name (missing_return_annotation)
 ]
 
 
@@ -141,7 +142,7 @@ def _routes(res, tier, lo, hi, only_event=None):
                 exp = [b for b in base if b[0] != c]
                 # override: on the module itself; override-parent: on its package (applies to submodules); override-prefix / override-longer: on
                 # a *different* module whose dotted name is a string prefix / extension of this one (must change nothing)
-                for route in ("cli", "override", "top-level", "override-parent", "override-prefix", "override-longer"):
+                for route in ("cli", "override", "top-level", "override-parent", "override-prefix", "override-longer", "override-child"):
                     ev = ["route", route, c]
                     if only_event is not None and only_event != ev:
                         continue
@@ -151,7 +152,7 @@ def _routes(res, tier, lo, hi, only_event=None):
                         cfg = os.path.join(d, "r.toml")
                         with open(cfg, "w") as f:
                             if route.startswith("override"):
-                                target = {"override": pkg + ".mod", "override-parent": pkg, "override-prefix": pkg + ".mo", "override-longer": pkg + ".mod_x"}[route]
+                                target = {"override": pkg + ".mod", "override-parent": pkg, "override-prefix": pkg + ".mo", "override-longer": pkg + ".mod_x", "override-child": pkg + ".mod.sub"}[route]
                                 f.write('[tool.pyanalyze]\nimport_paths = ["%s"]\n[[tool.pyanalyze.overrides]]\nmodule = "%s"\n%s = false\n' % (d, target, c))
                             else:
                                 f.write('[tool.pyanalyze]\nimport_paths = ["%s"]\n%s = false\n' % (d, c))
@@ -159,7 +160,7 @@ def _routes(res, tier, lo, hi, only_event=None):
                     res.states += 1
                     res.transitions += 1
                     res.validated += 1
-                    if route in ("override-prefix", "override-longer"):
+                    if route in ("override-prefix", "override-longer", "override-child"):
                         exp = list(base)
                     else:
                         exp = [b for b in base if b[0] != c]
@@ -257,6 +258,11 @@ def _run_base(res, tier, sel, order0, only_event=None):
     # a code that is only raised (and captured) while an operator tries its candidate dunder calls, never reported by itself
     if "incompatible_argument" not in variants and any(l.strip() in ("print(a + s)", "a += s") for l in lines):
         variants.append("incompatible_argument")
+    # codes whose name starts with (or is the start of) the name of an occurring code: ignore[missing_return_annotation] must not match missing_return
+    for c in codes:
+        for ec in ErrorCode:
+            if ec.name != c and (ec.name.startswith(c) or c.startswith(ec.name)) and ec.name not in variants:
+                variants.append(ec.name)
     Dmode = {}
     modes = [(False, False), (True, True)]      # (unused_ignore, bare_ignore) enabled?
     for li in range(len(lines) + 1):
